@@ -21,7 +21,8 @@ fn main() {
         }
         // mwh world <backend> <seed> <histories> <events> <out-prefix>
         //   writes <prefix>.ops (contract-level ops), <prefix>.events, <prefix>.impl (observations)
-        Some("world") => {
+        Some("world") | Some("matrix") => {
+            let matrix = args[1] == "matrix";
             let backend = &args[2];
             let seed = arg_u64(&args, 3);
             let n = arg_u64(&args, 4);
@@ -39,6 +40,9 @@ fn main() {
                         g.step();
                         if i % 10 == 9 {
                             g.queries();
+                        }
+                        if matrix && i % 6 == 5 {
+                            g.probes();
                         }
                     }
                     g.queries();
